@@ -205,7 +205,7 @@ class Ref:
     """Environment-based evaluation; `kludge` reproduces the known trailing-newline deviation (finding C04/#22)."""
 
     def __init__(self, lib, kludge=False, depth_limit=40, trim_first=None, switch_default_wins=False,
-                 opts=None, leak=False, resplit=None, switch_link_eq=False, switch_skip_empty=False):
+                 opts=None, leak=False, resplit=None, switch_link_eq=False, switch_skip_empty=False, link_name_pos=False):
         # leak: variant describing a known deviation -- the calls inside the arguments of an unexpanded parser
         # function stay placeholders; when such an argument value is substituted into a template body they are
         # expanded there (late), otherwise they are printed as written
@@ -217,6 +217,9 @@ class Ref:
         # switch_link_eq: variant describing a known deviation -- inside a template body links have already been turned into
         # text when #switch looks for '=' in its cases, so an '=' inside a link splits the case
         self.switch_link_eq = switch_link_eq
+        # link_name_pos: variant describing a known deviation -- inside a template body links are text again when the
+        # arguments of a call are split, so an argument whose name part holds a link is not recognised as named
+        self.link_name_pos = link_name_pos
         # switch_skip_empty: variant describing a known deviation -- after a bare '#default' a case whose value is empty is not
         # taken as the default; the next case with a non-empty value is
         self.switch_skip_empty = switch_skip_empty
@@ -455,6 +458,8 @@ class Ref:
                             continue
                     a2.append(it)
                 sp = self.split_named(a2)
+            if sp is not None and self.link_name_pos and env is not None and self.name_has_link(sp[0], env):
+                sp = None
             if sp is not None:
                 k, v = sp
                 kk = canon_key(self.ev(k, env, depth, in_body)) if not self.is_pos_num(k) else int(render(k).strip())
@@ -463,6 +468,20 @@ class Ref:
             else:
                 ht[num] = self.argtext(a, env, depth, in_body)
                 num += 1
+
+    def name_has_link(self, k, env):
+        for it in k:
+            if isinstance(it, int):
+                continue
+            if it[0] == "L":
+                return True
+            if it[0] == "A" and all(isinstance(x, int) for x in it[1][0]):
+                val = env.get(canon_key(render(it[1][0])))
+                if val is None and len(it[1]) >= 2 and self.name_has_link(it[1][1], env):
+                    return True
+                if isinstance(val, str) and ("[" in val or "]" in val):
+                    return True
+        return False
 
     def ev_named_value(self, v, env, depth, in_body):
         # the code trims the argument text before expanding it
